@@ -487,7 +487,8 @@ class Driver:
             return M.expected(r.ref, db, rp, mst, kind, params, with_ghost=pred)
         if after_restart and got == ex(lambda f: f.get("_mem") and f.get("_by") == "series") != exp:
             return "dropped_series_unflushed_rows_back_after_restart"
-        if last_n is not None and got == ex(lambda f: f.get("_n") == last_n):
+        if last_n is not None and (got == ex(lambda f: f.get("_n") == last_n) or (kind in M.LISTINGS and got == M.expected(
+                r.ref, db, rp, mst, kind, params, with_ghost=lambda f: f.get("_n") == last_n, scope="rp"))):
             # what the most recent drop removed is (still / again) returned
             return "dropped_%s_%s" % (last_kind, "back_after_restart" if after_restart else "still_returned")
         for n, k in reversed(r.drops_done[:-1]):
